@@ -10,7 +10,7 @@ use slotted_egraphs::*;
 use std::collections::HashMap;
 
 /// (name, lhs, rhs, explicit side conditions (slot, var)) — must equal `Rules.pool` in the Lean model
-pub const POOL: [(&str, &str, &str, &[(&str, &str)]); 31] = [
+pub const POOL: [(&str, &str, &str, &[(&str, &str)]); 32] = [
     ("add-comm", "(add ?a ?b)", "(add ?b ?a)", &[]),
     ("add-assoc", "(add (add ?a ?b) ?c)", "(add ?a (add ?b ?c))", &[]),
     ("mul-comm", "(mul ?a ?b)", "(mul ?b ?a)", &[]),
@@ -42,6 +42,7 @@ pub const POOL: [(&str, &str, &str, &[(&str, &str)]); 31] = [
     ("sum-infactor-f3", "(mul ?c (sum $f3 ?a))", "(sum $f3 (mul ?c ?a))", &[]),
     ("sum-infactor-f4", "(mul ?c (sum $f4 ?a))", "(sum $f4 (mul ?c ?a))", &[]),
     ("var-factor", "(add (mul (var $a) (var $b)) (var $a))", "(mul (var $a) (add (var $b) 1))", &[]),
+    ("sum-infactor-var", "(mul ?a (sum $i (mul (var $i) ?b)))", "(sum $i (mul (var $i) (mul ?a ?b)))", &[]),
 ];
 
 pub const BAD_POOL: [(&str, &str, &str, &[(&str, &str)]); 2] = [
@@ -343,6 +344,22 @@ pub fn run(ctx: &mut Ctx) {
             force.extend(["sum-infactor-f2", "sum-infactor-f3", "sum-infactor-f4", "sum-infactor"]);
         }
         if !bad && force.is_empty() && rng.chance(1, 8) {
+            // the rule mentions its bound slot explicitly: `x * sum_k (v * y)` with `v` the bound `k` (an instance) or the
+            // free `x` that also occurs in the factor (not an instance: matching `(var $i)` against it would capture)
+            let var = |c: u32| ATerm { v: 2, fields: vec![CField::Slot(c)], children: vec![] };
+            let bin = |v: usize, a: ATerm, b: ATerm| ATerm { v, fields: vec![CField::App, CField::App], children: vec![a, b] };
+            let sum = |x: u32, b: ATerm| ATerm { v: 6, fields: vec![CField::Bind(x, Box::new(CField::App))], children: vec![b] };
+            let (x, y, k) = (4u32, 8u32, 10u32);
+            let factor = if rng.chance(1, 2) { var(x) } else { bin(4, var(x), var(y)) };
+            let head = match rng.below(3) {
+                0 => var(k),
+                _ => var(x),
+            };
+            let rest = if rng.chance(1, 2) { var(y) } else { bin(4, var(y), var(k)) };
+            let t = bin(5, factor, sum(k, bin(5, head, rest)));
+            start = if rng.chance(1, 2) { vec![t] } else { vec![t, var(2)] };
+            force.push("sum-infactor-var");
+        } else if !bad && force.is_empty() && rng.chance(1, 8) {
             // a rule with free pattern slots, one of them used twice: `p*q + r` must only be rewritten when `r` is `p`,
             // whatever the sort order of the three slot names
             let t = gen_var_factor_term(&mut rng);
